@@ -5,6 +5,14 @@ HERE = os.path.dirname(os.path.abspath(__file__))
 BASELINE = "cd /repo && /venv/bin/python -m pytest -ra -q -p no:cacheprovider --timeout=900 --continue-on-collection-errors"
 
 CLAIMED = {
+    'C10': dict(
+        design='4.10',
+        text='Very narrow kernel: structured-axis arithmetic of transformseq for all integer axes [i,j) incl. periodic ones: the two interface axes of a DimAxis have equal length and pair each '
+             'interior face with its two neighbouring elements exactly once (mod the period); boundaries are exactly the first and last element faces and absent when periodic; refinement doubles '
+             'i, j and the period and commutes with taking boundaries; IntAxis.opposite is an involution shifting to the neighbour; slicing keeps the right sub-range.',
+        note='Measures, trimming, hierarchical/unstructured topologies, unions, products, connectivity tables and closedness of boundaries are global geometric invariants over histories of '
+             'operations and are OUTSIDE this family; the claim says only that the index arithmetic of structured axes is right.',
+        technique='contract-based deductive verification: ast->z3 on the real method bodies (harness contracts for compositions)'),
     'C08': dict(
         design='4.8',
         text='Very narrow kernel: numeric.ext(A) for n = 1, 2, 3 (all cases implemented) and all real entries is orthogonal to every column of A, has squared length det(A^T A) '
@@ -132,7 +140,7 @@ NOT_APPLICABLE = {
     'C02': 'whole-DAG faithful translation into generated numpy programs: no function-level postcondition carries it; would need a denotational semantics of ~150 node classes and of the generated code (DESIGN 4.2)',
     'C03': 'history/non-interference property of a program that exists only as a generated string; no per-function contract expresses it (DESIGN 4.3)',
 }
-PENDING = ['C10', 'C16', 'C18', 'C19']
+PENDING = ['C16', 'C18', 'C19']
 
 
 def main():
